@@ -250,4 +250,44 @@ def stateGet (s : State) (hash k : Bytes) : Res :=
   | none => .notfound
   | some v => getV s.data k v
 
+/-! ### specification side (statements of Props/C09.lean are written with these) -/
+
+/-- the record of `k` with the greatest version `≤ v`: "the most recent write to k at a version
+not above v" read off the records `getKey k i` of the store. -/
+def specRead (db : DB) (k : Bytes) : Nat → Option Bytes
+  | 0 => get db (getKey k 0)
+  | v + 1 =>
+    match get db (getKey k (v + 1)) with
+    | some x => some x
+    | none => specRead db k v
+
+/-- what a read must answer: that value, or not-found (also when that write stored the empty value). -/
+def specResult (db : DB) (k : Bytes) (v : Nat) : Res :=
+  match specRead db k v with
+  | some val => if val.isEmpty then .notfound else .val val
+  | none => .notfound
+
+/-- the data region holds only version records of keys in `K` (versions are int64). -/
+def WF (K : List Bytes) (db : DB) : Prop :=
+  Sorted db ∧ ∀ e ∈ db, ∃ k ∈ K, ∃ i, i < 2 ^ 63 ∧ e.1 = getKey k i
+
+def NoEmpty (db : DB) : Prop := ∀ e ∈ db, e.2 ≠ []
+
+/-- no key followed by '.' is a prefix of another key. -/
+def SepFree (K : List Bytes) : Prop := ∀ k ∈ K, ∀ k' ∈ K, ¬ (k ++ [dot]) <+: k'
+
+/-- no key is a proper prefix of another key. -/
+def PrefixFree (K : List Bytes) : Prop := ∀ k ∈ K, ∀ k' ∈ K, k' <+: k → k' = k
+
+/-- no record of version `n` yet. -/
+def Fresh (n : Nat) (db : DB) : Prop := ∀ e ∈ db, ∀ k, e.1 ≠ getKey k n
+
+/-- every record has a version below `n` (versions are added in order: `n` = top + 1). -/
+def Below (n : Nat) (db : DB) : Prop := ∀ e ∈ db, ∃ k i, i < n ∧ e.1 = getKey k i
+
+instance {β : Type} (db : Store β) : Decidable (Sorted db) := by unfold Sorted; infer_instance
+instance (db : DB) : Decidable (NoEmpty db) := by unfold NoEmpty; infer_instance
+instance (K : List Bytes) : Decidable (SepFree K) := by unfold SepFree; infer_instance
+instance (K : List Bytes) : Decidable (PrefixFree K) := by unfold PrefixFree; infer_instance
+
 end C09
